@@ -15,9 +15,11 @@ VARIABLES lo, hi, path
 vars == <<lo, hi, path>>
 
 Remaining == hi - lo
+\* skip counts: every value up to one past the end, and values around the 8-, 16- and 31-bit boundaries
+Skips == (0..(N + 1)) \cup {255, 256, 257, 65535, 65536, 65537, 2147483647}
 Ops == {<<"next", 0>>} \cup (IF DoubleEnded THEN {<<"next_back", 0>>} ELSE {})
-       \cup { <<"nth", k>> : k \in 0..(N + 1) }
-       \cup (IF DoubleEnded THEN { <<"nth_back", k>> : k \in 0..(N + 1) } ELSE {})
+       \cup { <<"nth", k>> : k \in Skips }
+       \cup (IF DoubleEnded THEN { <<"nth_back", k>> : k \in Skips } ELSE {})
 
 \* result (-1 = None) and successor of one operation
 Result(op) == CASE op[1] = "next" -> IF lo < hi THEN lo ELSE -1
